@@ -136,7 +136,11 @@ func All(nbits int) []Op {
 			}},
 		{Name: "MulAcc", NIn: 3, NOut: 1,
 			Build: func(api frontend.API, in []frontend.Variable) []frontend.Variable {
-				return []frontend.Variable{api.MulAcc(in[0], in[1], in[2])}
+				// documented contract: MulAcc may mutate its first argument; a value that is used
+				// elsewhere (the generated programs reuse every intermediate result) has to be copied
+				// first, the documented way
+				acopy := api.Mul(in[0], 1)
+				return []frontend.Variable{api.MulAcc(acopy, in[1], in[2])}
 			},
 			Ref: func(p *big.Int, in []*big.Int) Res {
 				return sat1(mod(new(big.Int).Add(in[0], new(big.Int).Mul(in[1], in[2])), p))
